@@ -120,7 +120,8 @@ func (e *Exec) builtinAppend(fr *frame, st *State, c *ssa.CallCommon, s, t Val, 
 		return s
 	}
 	n := add(slLen(s.T), k)
-	fits := and(le(n, slCap(s.T)), not(eq(slRef(s.T), "0")))
+	// appending nothing returns s itself (in particular nil stays nil)
+	fits := or(and(le(n, slCap(s.T)), not(eq(slRef(s.T), "0"))), eq(k, "0"))
 	nr := e.alloc(st)
 	res := e.ctx.fresh("appended", sSlice)
 	cp := slCap(res)
